@@ -147,15 +147,6 @@ def library_pool(with_doit: bool = True) -> list[dict]:  # noqa: PLR0914, PLR091
     add("ArrayElement(known shape)", ae.ArrayElement(shaped, (2, 1)))
     add("ArrayAxisSum(known shape)", ae.ArrayAxisSum(shaped, axis=0))
     add("ArraySlice(nested)", sp.sqrt(ae.ArrayAxisSum(ae.ArraySlice(p12, (slice(None), slice(1, 4))) ** 2, axis=1)))
-    # twins: identical up to one non-SymPy attribute, nested below Add/Mul/Pow (SymPy's construction cache)
-    width_plain = EnergyDependentWidth(s, m0, w0, m1, m2, 2, d)
-    width_named = EnergyDependentWidth(s, m0, w0, m1, m2, 2, d, name=R"\Gamma_X")
-    width_swave = EnergyDependentWidth(s, m0, w0, m1, m2, 2, d, phsp_factor=ps.PhaseSpaceFactorSWave)
-    for label, width in (("plain", width_plain), ("named", width_named), ("swave", width_swave)):
-        add(f"twin:bw:{label}", m0 * w0 / (m0**2 - s - sp.I * m0 * width))
-    for label, rho in (("plain", ps.PhaseSpaceFactor(s, m1, m2)), ("named", ps.PhaseSpaceFactor(s, m1, m2, name="R")),
-                       ("abs", ps.PhaseSpaceFactorAbs(s, m1, m2))):
-        add(f"twin:rho:{label}", 1 + 2 * rho**2)
     out = []
     for name, expr in pool:
         out.append({"name": name, "expr": expr, "unfolded": False, "cls": type(expr).__name__})
@@ -170,8 +161,34 @@ def library_pool(with_doit: bool = True) -> list[dict]:  # noqa: PLR0914, PLR091
     return out
 
 
+def twin_entry(name: str) -> dict:
+    """One member of a family of expressions that differ in a single non-SymPy attribute, nested
+    below Add/Mul/Pow.  Built on demand and alone: constructing two members in one process lets
+    SymPy's construction cache see both, which is exactly the situation a *reader* may be in."""
+    import sympy as sp  # noqa: PLC0415
+
+    from ampform.dynamics import EnergyDependentWidth  # noqa: PLC0415
+    from ampform.dynamics import phasespace as ps  # noqa: PLC0415
+
+    s, m0, w0, m1, m2, d = sp.symbols("s m0 Gamma0 m1 m2 d")
+    _, family, member = name.split(":")
+    if family == "bw":
+        kwargs = {"plain": {}, "named": {"name": R"\Gamma_X"}, "swave": {"phsp_factor": ps.PhaseSpaceFactorSWave}}[member]
+        width = EnergyDependentWidth(s, m0, w0, m1, m2, 2, d, **kwargs)
+        expr = m0 * w0 / (m0**2 - s - sp.I * m0 * width)
+        cls = "EnergyDependentWidth"
+    else:
+        rho = {"plain": lambda: ps.PhaseSpaceFactor(s, m1, m2), "named": lambda: ps.PhaseSpaceFactor(s, m1, m2, name="R"),
+               "abs": lambda: ps.PhaseSpaceFactorAbs(s, m1, m2)}[member]()
+        expr = 1 + 2 * rho**2
+        cls = type(rho).__name__
+    return {"name": name, "expr": expr, "unfolded": False, "cls": cls}
+
+
 def pool_entry(k) -> dict:
     """Entry ``k`` of the doubled pool: k < N folded, k >= N the unfolded form of entry k-N."""
+    if isinstance(k, str) and k.startswith("twin:"):
+        return twin_entry(k)
     pool = library_pool(with_doit=False)
     n = len(pool)
     if isinstance(k, str):
